@@ -900,7 +900,7 @@ func vC03Table(p *Protocol) []vC03Ent {
 		m = m.Field(i)
 	}
 	if len(vC03TablePath) == 0 || m.Kind() != reflect.Map {
-		panic("cannot observe the transaction table")
+		vAbort("cannot observe the transaction table")
 	}
 	es := []vC03Ent{}
 	for _, k := range m.MapKeys() {
